@@ -10,7 +10,7 @@
    or async generator (KAsync), applies the operations ops (OpSend v: next/send/asend, OpThrow e:
    throw/athrow, OpClose: close/aclose) and drops it: per operation the body's events and the answer
    (OYield v | OStop v = StopIteration(v), the return value | OStopAsync | ORaise e | ONone), then
-   the events of finalisation.  `wrapped_observe` is the same for the object the profiler's wrapper
+   the events of finalisation.  `wrapped_observe_with fwd` is the same for the object the profiler's wrapper
    returns; `erase_obs` removes the Enable/Disable events the wrapper adds on purpose. *)
 From Coq Require Import List ZArith Bool String.
 From LP Require Import Wrap.Protocol Wrap.GenWrap Wrap.CoroWrap Wrap.GenWrapFun Wrap.GenWrapRepaired.
@@ -83,101 +83,106 @@ Theorem C03_coroutine_hypotheses_needed :
          <> coro_plain_observe cwit_ge_return 0 [OpNext; OpThrow GenExit]).
 Proof. exact (conj hyp_close_needed hyp_no_ge_throw_needed). Qed.
 
-(* ---- generators ----------------------------------------------------------------------------- *)
-(* C03_generator_full would be `transparent_for KGen`:
-     forall S body s0 ops, erase_obs (wrapped_observe KGen body s0 ops) = plain_observe KGen body s0 ops.
-   It is FALSE of the faithful model of wrap_generator: *)
-Theorem C03_generator_refuted : ~ transparent_for KGen.
+(* ---- generators and async generators ------------------------------------------------------- *)
+(* `wrapped_observe_with fwd k body s0 ops`: the object returned by the wrapper variant fwd
+   (false: throw()/close() are not forwarded to the decorated generator - what /repo contains while
+   Wrap/GenWrap.v says `repo_forwards := false`; true: the repair of Wrap/GenWrapRepaired.v).
+   C03_generator_full would be `transparent_for fwd KGen`:
+     forall S body s0 ops, erase_obs (wrapped_observe_with fwd KGen body s0 ops) = plain_observe KGen body s0 ops. *)
+
+(* It is FALSE of the faithful model of /repo's wrap_generator: *)
+Theorem C03_generator_refuted : ~ transparent_for false KGen.
 Proof. exact generator_full_false. Qed.
 
-(* witness 1 (`yield 1; return 7`, next, next): the wrapper's bare `return` drops the value - what
-   `yield from wrapped()` evaluates to is None instead of 7 *)
-Theorem C03_generator_refuted_return :
-  erase_obs (wrapped_observe KGen wit_ret 0 [OpNext; OpNext])
-  = ([([EIn (SendV 0)], OYield 1); ([EIn (SendV 0)], OStop 0)], [])
-  /\ plain_observe KGen wit_ret 0 [OpNext; OpNext]
-  = ([([EIn (SendV 0)], OYield 1); ([EIn (SendV 0)], OStop 7)], []).
-Proof. exact refuted_return. Qed.
-
-(* witness 2 (`try: yield 1  except ValueError: yield 5`, next, throw ValueError): the exception
+(* witness 1 (`try: yield 1  except ValueError: yield 5`, next, throw ValueError): the exception
    never reaches the body (which is finalised with GeneratorExit instead) and comes straight back *)
 Theorem C03_generator_refuted_throw :
-  erase_obs (wrapped_observe KGen wit_catch 0 [OpNext; OpThrow ValueErr])
+  erase_obs (wrapped_observe_with false KGen wit_catch 0 [OpNext; OpThrow ValueErr])
   = ([([EIn (SendV 0)], OYield 1); ([EIn (ThrowE GenExit)], ORaise ValueErr)], [])
   /\ plain_observe KGen wit_catch 0 [OpNext; OpThrow ValueErr]
   = ([([EIn (SendV 0)], OYield 1); ([EIn (ThrowE ValueErr)], OYield 5)], [EIn (ThrowE GenExit)]).
 Proof. exact refuted_throw. Qed.
 
-(* witness 3 (body yields again on GeneratorExit, next, close): close() is not forwarded either -
+(* witness 2 (body yields again on GeneratorExit, next, close): close() is not forwarded either -
    the original raises RuntimeError, the wrapped one returns None *)
 Theorem C03_generator_refuted_close :
-  erase_obs (wrapped_observe KGen wit_stubborn 0 [OpNext; OpClose])
+  erase_obs (wrapped_observe_with false KGen wit_stubborn 0 [OpNext; OpClose])
   = ([([EIn (SendV 0)], OYield 1); ([EIn (ThrowE GenExit)], ONone)], [])
   /\ plain_observe KGen wit_stubborn 0 [OpNext; OpClose]
   = ([([EIn (SendV 0)], OYield 1); ([EIn (ThrowE GenExit)], ORaise RuntimeErr)], [EIn (ThrowE GenExit)]).
 Proof. exact refuted_close. Qed.
 
-(* What IS proved of the current wrapper: every history made of next()/send(v) only, of every body
-   that never returns a value other than None - yielded values, values sent in, exceptions raised
-   by the body, exhaustion, behaviour after exhaustion, finalisation.
-   Missing w.r.t. the full statement: throw()/close() while suspended, non-None return values. *)
+(* What IS proved of /repo's wrapper: every history made of next()/send(v) only, of EVERY body -
+   yielded values, values sent in, exceptions raised by the body, the RETURN VALUE (kept since
+   /repo commit 44481f3), behaviour after exhaustion, finalisation.
+   Missing w.r.t. the full statement: throw()/close() while the generator is suspended. *)
 Theorem C03_generator_partial :
   forall (S : Type) (b : body S) (s0 : S) (ops : list op),
-    returns_none b ->
     forallb is_send ops = true ->
-    erase_obs (wrapped_observe KGen b s0 ops) = plain_observe KGen b s0 ops.
+    erase_obs (wrapped_observe_with false KGen b s0 ops) = plain_observe KGen b s0 ops.
 Proof.
-  exact (fun S b s0 ops Hr Hs =>
-           wrap_gen_send_only KGen b s0 (fun E => match E with eq_refl => I end) (fun _ => Hr) ops Hs).
+  exact (fun S b s0 ops Hs => wrap_gen_send_only KGen b s0 ops (fun E => match E with eq_refl => I end) Hs).
 Qed.
 
 Theorem C03_generator_partial_nonvacuous :
-  returns_none wit_echo
-  /\ forallb is_send [OpNext; OpSend 2; OpSend 3; OpNext; OpNext] = true
+  forallb is_send [OpNext; OpSend 2; OpSend 3; OpNext; OpNext] = true
   /\ plain_observe KGen wit_echo 0 [OpNext; OpSend 2; OpSend 3; OpNext; OpNext]
      = ([([EIn (SendV 0)], OYield 10); ([EIn (SendV 2)], OYield 12); ([EIn (SendV 3)], OYield 13);
-         ([EIn (SendV 0)], OStop 0); ([], OStop 0)], [])
-  /\ wrapped_observe KGen wit_echo 0 [OpNext; OpSend 2]
+         ([EIn (SendV 0)], OStop 9); ([], OStop 0)], [])
+  /\ wrapped_observe_with false KGen wit_echo 0 [OpNext; OpSend 2]
      = ([([EEnable; EIn (SendV 0); EDisable], OYield 10); ([EEnable; EIn (SendV 2); EDisable], OYield 12)],
         [EIn (ThrowE GenExit)]).
 Proof. exact partial_nonvacuous. Qed.
 
-(* ---- async generators (bodies that never await a pending awaitable) ------------------------ *)
-Theorem C03_async_generator_refuted : ~ transparent_for KAsync.
+(* the former return-value witness (`yield 1; return 7`, next, next) is now answered correctly *)
+Theorem C03_generator_return_value :
+  erase_obs (wrapped_observe_with false KGen wit_ret 0 [OpNext; OpNext])
+  = ([([EIn (SendV 0)], OYield 1); ([EIn (SendV 0)], OStop 7)], [])
+  /\ plain_observe KGen wit_ret 0 [OpNext; OpNext]
+  = ([([EIn (SendV 0)], OYield 1); ([EIn (SendV 0)], OStop 7)], []).
+Proof. exact return_value_kept. Qed.
+
+(* async generators (bodies that never await a pending awaitable) *)
+Theorem C03_async_generator_refuted : ~ transparent_for false KAsync.
 Proof. exact async_generator_full_false. Qed.
 
 Theorem C03_async_generator_refuted_athrow_aclose :
-  (erase_obs (wrapped_observe KAsync wit_catch 0 [OpNext; OpThrow ValueErr])
+  (erase_obs (wrapped_observe_with false KAsync wit_catch 0 [OpNext; OpThrow ValueErr])
    = ([([EIn (SendV 0)], OYield 1); ([EIn (ThrowE GenExit)], ORaise ValueErr)], [])
    /\ plain_observe KAsync wit_catch 0 [OpNext; OpThrow ValueErr]
    = ([([EIn (SendV 0)], OYield 1); ([EIn (ThrowE ValueErr)], OYield 5)], [EIn (ThrowE GenExit)]))
-  /\ (erase_obs (wrapped_observe KAsync wit_stubborn 0 [OpNext; OpClose])
+  /\ (erase_obs (wrapped_observe_with false KAsync wit_stubborn 0 [OpNext; OpClose])
       = ([([EIn (SendV 0)], OYield 1); ([EIn (ThrowE GenExit)], ONone)], [])
       /\ plain_observe KAsync wit_stubborn 0 [OpNext; OpClose]
       = ([([EIn (SendV 0)], OYield 1); ([EIn (ThrowE GenExit)], ORaise RuntimeErr)], [EIn (ThrowE GenExit)])).
 Proof. exact (conj refuted_athrow refuted_aclose). Qed.
 
-(* anext()/asend(v)-only histories of every body (an async generator has no return value).
+(* anext()/asend(v)-only histories of every body.
    Missing: athrow()/aclose() while suspended; bodies that suspend inside an await. *)
 Theorem C03_async_generator_partial :
   forall (S : Type) (b : body S) (s0 : S) (ops : list op),
     forallb is_send ops = true ->
-    erase_obs (wrapped_observe KAsync b s0 ops) = plain_observe KAsync b s0 ops.
+    erase_obs (wrapped_observe_with false KAsync b s0 ops) = plain_observe KAsync b s0 ops.
 Proof.
-  exact (fun S b s0 ops Hs =>
-           wrap_gen_send_only KAsync b s0 (fun E => match E with eq_refl => I end)
-                              (fun E => match E with eq_refl => I end) ops Hs).
+  exact (fun S b s0 ops Hs => wrap_gen_send_only KAsync b s0 ops (fun E => match E with eq_refl => I end) Hs).
 Qed.
 
-(* ---- the defects have a small repair (Wrap/GenWrapRepaired.v; not what /repo contains) ----- *)
-(* `return e.value` and forwarding whatever is thrown at the wrapper's yield with g.throw: for
-   every body that honours the close contract, generators and async generators, ALL histories. *)
+(* ---- the forwarding variant (the repair; Wrap/GenWrapRepaired.v shows the Python) -------------- *)
+(* EVERY body, EVERY history (next/send/throw/close in any order): all answers, and everything the body
+   sees while the operations run, are the original's - for generators and async generators. *)
+Theorem C03_generator_repaired_operations :
+  forall (k : kind) (S : Type) (b : body S) (s0 : S) (ops : list op),
+    k <> KCoro ->
+    fst (erase_obs (wrapped_observe_with true k b s0 ops)) = fst (plain_observe k b s0 ops).
+Proof. exact (fun k S b s0 ops Hk => wrap_gen_fwd_ops k b s0 ops Hk). Qed.
+
+(* ... and for every body that honours the close contract, finalisation too: the full statement. *)
 Theorem C03_generator_repaired :
   forall (k : kind) (S : Type) (b : body S) (s0 : S) (ops : list op),
     k <> KCoro ->
     honours_close b ->
-    erase_obs (repaired_observe k b s0 ops) = plain_observe k b s0 ops.
-Proof. exact (fun k S b s0 ops Hk Hc => wrap_gen_fixed_transparent k b s0 Hk Hc ops). Qed.
+    erase_obs (wrapped_observe_with true k b s0 ops) = plain_observe k b s0 ops.
+Proof. exact (fun k S b s0 ops Hk Hc => wrap_gen_fwd_full k b s0 ops Hk Hc). Qed.
 
 Theorem C03_generator_repaired_nonvacuous :
   honours_close wit_good
@@ -188,6 +193,19 @@ Theorem C03_generator_repaired_nonvacuous :
      = ([([EEnable; EIn (SendV 0); EDisable], OYield 1); ([EEnable; EIn (ThrowE ValueErr); EDisable], OYield 5);
          ([EEnable; EIn (ThrowE GenExit); EDisable], ONone)], []).
 Proof. exact repaired_nonvacuous. Qed.
+
+(* the hypothesis is needed, and it is all that is left: a body that yields while it is being finalised
+   is finalised once more when the wrapper's frame goes away *)
+Theorem C03_generator_repaired_residual :
+  snd (erase_obs (repaired_observe KGen wit_stubborn 0 [OpNext])) = [EIn (ThrowE GenExit); EIn (ThrowE GenExit)]
+  /\ snd (plain_observe KGen wit_stubborn 0 [OpNext]) = [EIn (ThrowE GenExit)]
+  /\ ~ honours_close wit_stubborn.
+Proof. exact repaired_residual. Qed.
+
+(* what holds of the variant /repo contains according to the line `Definition repo_forwards` in
+   Wrap/GenWrap.v (the correspondence check ties that line to the code): today the refutation *)
+Theorem C03_generator_current : current_claim repo_forwards.
+Proof. exact current_claim_holds. Qed.
 
 (* ---- metadata ------------------------------------------------------------------------------- *)
 (* name, docstring, signature and function kind of what wrap_callable returns for a plain
